@@ -52,6 +52,7 @@ class Canon:
         self.prog = prog
         self.depth = depth
         self._ret = {}
+        self.lam_args = True   # closures / function items handed to other calls become ('lam', body)
 
     # ---- callables -------------------------------------------------------------------------------------
     def lam(self, n, depth=0):
@@ -119,7 +120,7 @@ class Canon:
                 if name in ("eq", "ne") and "PartialEq" in path and len(args) == 2:
                     e = mk_bin("Eq", args[0], args[1])
                     return e if name == "eq" else ("un", "Not", e)
-                if any(is_closure(a) or is_fnitem(a) for a in args):
+                if self.lam_args and any(is_closure(a) or is_fnitem(a) for a in args):
                     new = tuple((self.lam(a, depth) or a) if (is_closure(a) or is_fnitem(a)) else a for a in args)
                     return n[:3] + (new,) + n[4:]
             if k == "bin" and n[1] in ("Gt", "Ge", "Lt", "Le"):
